@@ -41,7 +41,8 @@ FAULT_CLASS = {
     "link-outside-encoded": "LinkToExternalFileError", "link-missing": "LinkToNonExistentFileError",
     "link-sibling-rel": "LinkToExternalFileError", "link-sibling-abs": "LinkToExternalFileError",
     "link-sibling-encoded": "LinkToExternalFileError", "link-sibling-symlink": "LinkToExternalFileError",
-    "link-sibling-dir-symlink": "LinkToExternalFileError",
+    "link-sibling-dir-symlink": "LinkToExternalFileError", "link-casetwin-rel": "LinkToExternalFileError",
+    "link-casetwin-symlink": "LinkToExternalFileError",
 }
 MARKER = b"SECRET-MARKER"
 
@@ -658,12 +659,12 @@ def documented_servings(text: str) -> Any:
     'to serve N', 'serving N', 'to make N', in any letter case) - read from the Markdown source, not with the
     implementation's parser.  "skip" when the first heading is not a plain-text ATX level-1 heading."""
     for ln in text.split("\n"):
-        if _re.match(r"^ {0,3}#{1,6}(\s|$)", ln):
+        if _re.match(r"^ {0,3}#{1,6}( |\t|$)", ln):
             m = _re.match(r"^# (.*)$", ln)
             if not m:
                 return "skip"
             h = m.group(1).strip()
-            if not h or _re.search(r"[<>&*_`\[\]{}\\%#!~|\u00a0\u2000-\u200b\u3000]", h):
+            if not h or _re.search(r"[<>&*_`\[\]{}\\%#!~|\u200b]", h):
                 return "skip"
             ms = _SERVING_PHRASE.search(h)
             return int(ms.group(1)) if ms else None
@@ -961,6 +962,8 @@ def run_and_judge(site: Dict[str, Any], seed: int, which: str, facts: Dict[str, 
             viol = oracle_links(obs) or oracle_author_links(site, obs, real, facts)
         elif which == "C15":
             viol = oracle_pages(site, obs, real, facts)
+            if viol is None and site.get("profile") == "valid":
+                viol = oracle_asset_set(site, obs, real, facts)       # "one copy of every referenced local file - nothing extra"
         elif which == "C16":
             viol = oracle_assets(site, obs, real)
             if viol is None and site.get("profile") == "valid":
@@ -1247,6 +1250,8 @@ def pick_alone_sibling(rng: random.Random, site: Dict[str, Any]) -> Optional[Dic
     here = G.find(site["base"], p[:-1])
     assert parent is not None and here is not None
     sib = dname + rng.choice(["-private", "2", ".bak", " copy"])
+    if dname.swapcase() != dname and rng.random() < 0.4:
+        sib = rng.choice([dname.swapcase(), dname.upper() if dname.upper() != dname else dname.lower()])   # a case twin
     if not any(ch["name"] == sib for ch in parent["ch"]):
         parent["ch"].append(G.D(sib, [G.F("secret.bin", data=b"\x02SIBLING-OF-STANDALONE-ROOT\xfd"),
                                       G.D("deep", [G.F("s.txt", text="sibling deep\n")])]))
